@@ -90,9 +90,28 @@ var replaySpecs = map[string]replaySpec{
 		body: `i := NewInterceptors()
 	i.Add(MatchDigit, "digit")
 	i.Split(str)`},
-	"mux.NewPathVersion": {pkgDir: ".", pkg: "mux",
+	"mux.NewPathVersion": {pkgDir: ".", pkg: "mux", imports: []string{"net/http/httptest", "github.com/issue9/mux/v9/types"},
 		inputs: []replayInput{{"v0", "(elem_Slice_String |H0:S:string| |p:version| 0)", "string"}},
-		body:   `NewPathVersion("ver", v0)`},
+		body: `if v0 == "" {
+		return
+	}
+	m := NewPathVersion("ver", v0)
+	norm := v0
+	if norm[0] != '/' {
+		norm = "/" + norm
+	}
+	if norm[len(norm)-1] != '/' {
+		norm += "/"
+	}
+	r := httptest.NewRequest("GET", "http://x/", nil)
+	r.URL.Path = norm + "rest"
+	ctx := types.NewContext()
+	if !m.Match(r, ctx) || r.URL.Path != "/rest" {
+		t.Fatalf("NewPathVersion(%q) does not accept %q (path after Match: %q)", v0, norm+"rest", r.URL.Path)
+	}
+	if got, _ := ctx.Get("ver"); got != norm[:len(norm)-1] {
+		t.Fatalf("recorded version %q, want %q", got, norm[:len(norm)-1])
+	}`},
 	"mux.CheckSyntax": {pkgDir: ".", pkg: "mux",
 		inputs: []replayInput{{"pattern", "|p:pattern|", "string"}},
 		body:   `CheckSyntax(pattern)`},
@@ -170,7 +189,7 @@ func tryReplay(w *World, o *Obligation, repo, replayPath string) (bool, string) 
 			desc = append(desc, fmt.Sprintf("%s=%s", in.name, vals[i]))
 		}
 	}
-	sb.WriteString("\tdefer func() {\n\t\tif e := recover(); e != nil {\n\t\t\tt.Fatalf(\"runtime panic: %v\", e)\n\t\t}\n\t}()\n\t")
+	sb.WriteString("\tdefer func() {\n\t\tif e := recover(); e != nil {\n\t\t\tif _, isRuntime := e.(interface{ RuntimeError() }); isRuntime {\n\t\t\t\tt.Fatalf(\"runtime panic: %v\", e)\n\t\t\t}\n\t\t\tt.Logf(\"documented panic with an explicit value: %v\", e)\n\t\t}\n\t}()\n\t")
 	sb.WriteString(spec.body)
 	sb.WriteString("\n}\n")
 	testFile := strings.TrimSuffix(replayPath, ".txt") + "_replay_test.go"
